@@ -164,3 +164,75 @@ func BadT3Scratch(src []byte) int {
 	}
 	return copy(*buf, src)
 }
+
+// ---- T4 ---------------------------------------------------------------------------------------------------------------
+
+type t4item struct {
+	buf  *[]byte
+	size int
+}
+
+type t4sink interface{ Write(b []byte) int }
+
+// GoodT4Drain hands each item's bytes downstream and only then gives the buffer back; the next iteration works on a
+// new item.
+func GoodT4Drain(q []*t4item, w t4sink) int {
+	n := 0
+	for len(q) > 0 {
+		next := q[0]
+		q = q[1:]
+		if next.size == 0 {
+			t3pool.Put(next.buf)
+			continue
+		}
+		n += w.Write((*next.buf)[:next.size])
+		t3pool.Put(next.buf)
+	}
+	return n
+}
+
+// GoodT4Copy copies out of the buffer before giving it back and returns the copy.
+func GoodT4Copy(it *t4item) []byte {
+	out := append([]byte(nil), (*it.buf)[:it.size]...)
+	first := (*it.buf)[0]
+	t3pool.Put(it.buf)
+	if first == 0 {
+		return nil
+	}
+	return out
+}
+
+// BadT4Drain gives the buffer back "on every path" before the downstream Write that still reads it.
+func BadT4Drain(q []*t4item, w t4sink) int {
+	n := 0
+	for len(q) > 0 {
+		next := q[0]
+		q = q[1:]
+		payload := (*next.buf)[:next.size]
+		t3pool.Put(next.buf)
+		if next.size == 0 {
+			continue
+		}
+		n += w.Write(payload)
+	}
+	return n
+}
+
+// BadT4Return returns a slice of the pooled buffer although the deferred Put has run by then.
+func BadT4Return(src []byte) []byte {
+	buf, ok := t3pool.Get().(*[]byte)
+	if !ok {
+		return nil
+	}
+	defer t3pool.Put(buf)
+	n := copy(*buf, src)
+	return (*buf)[:n]
+}
+
+func t4recycle(it *t4item) { t3pool.Put(it.buf) }
+
+// BadT4Helper gives the buffer back through a helper and reads it afterwards.
+func BadT4Helper(it *t4item) byte {
+	t4recycle(it)
+	return (*it.buf)[0]
+}
